@@ -24,6 +24,9 @@ pub struct Case {
     /// time-out, 64 KiB cache (a clean in-order channel must not notice any of it)
     #[serde(default)]
     pub rx_variant: u8,
+    /// deliver through the single-session `Receiver::push_data` instead of `MultiReceiver::push`
+    #[serde(default)]
+    pub direct: bool,
 }
 
 fn rx_config(case: &Case) -> flute::receiver::Config {
@@ -250,7 +253,7 @@ pub fn run_case(case: &Case) -> (Vec<Violation>, Guards) {
             return Ok(());
         }
         let mon = Mon::new(true);
-        let (results, panic) = deliver(&mon, rx_config(case), &pkts);
+        let (results, panic) = if case.direct { deliver_direct(&mon, rx_config(case), if case.sess.tsi == 0 { TSI } else { case.sess.tsi }, &pkts) } else { deliver(&mon, rx_config(case), &pkts) };
         if let Some(p) = panic {
             return Err((format!("C01/panic/{}", panic_sig(&p)), format!("receiver panicked: {}", p)));
         }
@@ -401,7 +404,7 @@ fn core_grid(thorough: bool) -> Vec<Case> {
                                 if len % 2 == 0 && e >= 4 {
                                     s.oti = OtiSpec::new(scheme, 64, 8, parity.max(if scheme == Scheme::NoCode { 0 } else { 1 }), true);
                                 }
-                                v.push(Case { sess: s, objs: vec![o], receive_once: true, fs: false, rx_variant: 0 });
+                                v.push(Case { sess: s, objs: vec![o], receive_once: true, fs: false, rx_variant: 0, direct: false });
                             }
                         }
                     }
@@ -426,7 +429,7 @@ fn core_grid(thorough: bool) -> Vec<Case> {
                             o.oti = Some(oti);
                             o.md5 = md5;
                             let s = SessSpec::basic(OtiSpec::new(Scheme::NoCode, 1424, 64, 0, true));
-                            v.push(Case { sess: s, objs: vec![o], receive_once: true, fs: false, rx_variant: 0 });
+                            v.push(Case { sess: s, objs: vec![o], receive_once: true, fs: false, rx_variant: 0, direct: false });
                         }
                     }
                 }
@@ -443,7 +446,7 @@ fn core_grid(thorough: bool) -> Vec<Case> {
                 let mut o = ObjSpec::simple(len, 3);
                 o.oti = Some(OtiSpec::new(scheme, e, b, if scheme == Scheme::NoCode { 0 } else { 1 }, inband_fti));
                 let s = SessSpec::basic(OtiSpec::new(Scheme::NoCode, 1424, 64, 0, true));
-                v.push(Case { sess: s, objs: vec![o], receive_once: true, fs: false, rx_variant: 0 });
+                v.push(Case { sess: s, objs: vec![o], receive_once: true, fs: false, rx_variant: 0, direct: false });
             }
         }
         // around the scheme's maximum transfer length, smallest (E, B)
@@ -455,7 +458,7 @@ fn core_grid(thorough: bool) -> Vec<Case> {
                 let mut o = ObjSpec::simple(len as usize, 2);
                 o.oti = Some(oti.clone());
                 let s = SessSpec::basic(OtiSpec::new(Scheme::NoCode, 1424, 64, 0, true));
-                v.push(Case { sess: s, objs: vec![o], receive_once: true, fs: false, rx_variant: 0 });
+                v.push(Case { sess: s, objs: vec![o], receive_once: true, fs: false, rx_variant: 0, direct: false });
             }
         }
     }
@@ -518,7 +521,8 @@ fn session_grid(thorough: bool) -> Vec<Case> {
                                                     objs.push(o);
                                                 }
                                                 let rx_variant = (v.len() % 3) as u8;
-                                                v.push(Case { sess: s, objs, receive_once: once, fs, rx_variant });
+                                                let direct = !fs && v.len() % 4 == 1;
+                                                v.push(Case { sess: s, objs, receive_once: once, fs, rx_variant, direct });
                                             }
                                         }
                                     }
@@ -540,7 +544,7 @@ fn session_grid(thorough: bool) -> Vec<Case> {
             o.ctype = "text/plain; charset=utf-8".into();
             o.etag = Some(format!("\"v{}\"", j));
             let s = SessSpec::basic(OtiSpec::new(Scheme::NoCode, 1424, 64, 0, true));
-            v.push(Case { sess: s, objs: vec![o], receive_once: true, fs: false, rx_variant: 0 });
+            v.push(Case { sess: s, objs: vec![o], receive_once: true, fs: false, rx_variant: 0, direct: false });
         }
     }
     v
@@ -593,7 +597,8 @@ fn mixed_grid(thorough: bool) -> Vec<Case> {
                     objs.push(o);
                 }
                 let rx_variant = (v.len() % 3) as u8;
-                v.push(Case { sess: s, objs, receive_once: true, fs: false, rx_variant });
+                let direct = v.len() % 4 == 2;
+                                v.push(Case { sess: s, objs, receive_once: true, fs: false, rx_variant, direct });
             }
         }
     }
@@ -637,7 +642,8 @@ fn mixed_grid(thorough: bool) -> Vec<Case> {
                                     objs.push(o);
                                 }
                                 let rx_variant = (v.len() % 3) as u8;
-                                v.push(Case { sess: s, objs, receive_once: true, fs: false, rx_variant });
+                                let direct = v.len() % 4 == 2;
+                                v.push(Case { sess: s, objs, receive_once: true, fs: false, rx_variant, direct });
                             }
                         }
                     }
